@@ -1,7 +1,61 @@
-From Coq Require Import List NArith Bool Arith.
+From Coq Require Import List NArith Bool Arith Permutation.
 Import ListNotations.
 Require Import MV.Common.Interleave MV.C05.Model MV.C05.Spec MV.C05.Exec.
+Require Import MV.C05.ProofsSeq MV.C05.ProofsInv MV.C05.ProofsCor.
+Local Open Scope nat_scope.
 Require Import MV.C05.Properties.
 
-Check (C05_placeholder : forall n : nat, n = n).
-Print Assumptions C05_placeholder.
+Check (C05_sequential_bag : forall B calls, 1 <= B ->
+  exists s', seq_exec B init_shared calls s' (fst (bag_run B [] calls)) /\
+             SeqState B s' (snd (bag_run B [] calls))).
+Print Assumptions C05_sequential_bag.
+Check (C05_sequential_call : forall B s cs m k c td rs, 1 <= B -> SeqState B s cs ->
+  exists s', steps B s (enter m k (c :: td) rs) s' (enter m (k + 1)%N td (bag_res c cs :: rs)) /\
+             SeqState B s' (bag_next B (m, k) c cs)).
+Print Assumptions C05_sequential_call.
+Check (C05_bag_push_adds : forall B x cs, Permutation (concat (push_contents B x cs)) (x :: concat cs)).
+Print Assumptions C05_bag_push_adds.
+Check (C05_sequential_run_unique : forall B s l s1 l1 s2 l2,
+  steps B s l s1 l1 -> steps B s l s2 l2 -> step B true true s1 l1 = None -> step B true true s2 l2 = None ->
+  s1 = s2 /\ l1 = l2).
+Print Assumptions C05_sequential_run_unique.
+Check (C05_conservation_partial : forall B fxc ps sched, 1 <= B ->
+  Inv B (fst (exec (step B true fxc) site (init_config ps) sched))).
+Print Assumptions C05_conservation_partial.
+Check (C05_invariant_every_step : forall B fxc, 1 <= B -> step_preserves (step B true fxc) (Inv B)).
+Print Assumptions C05_invariant_every_step.
+Check (C05_published_slot_is_written : forall B fxc ps c b i, 1 <= B -> reach B fxc ps c ->
+  b < length (heap (fst c)) -> nth i (bdone (getb (heap (fst c)) b)) false = true ->
+  exists x, nth i (bslot (getb (heap (fst c)) b)) None = Some x).
+Print Assumptions C05_published_slot_is_written.
+Check (C05_claims_unique : forall B fxc ps c t u l l' b i, 1 <= B -> reach B fxc ps c ->
+  nth_error (snd c) t = Some l -> nth_error (snd c) u = Some l' -> t <> u ->
+  inflight b i l = 1 -> inflight b i l' = 1 -> False).
+Print Assumptions C05_claims_unique.
+Check (C05_write_index_counts_claims : forall B fxc ps c b i, 1 <= B -> reach B fxc ps c ->
+  b < length (heap (fst c)) -> i < B -> claim_ok (heap (fst c)) (snd c) b i).
+Print Assumptions C05_write_index_counts_claims.
+Check (C05_writer_publishes_own_value : forall B fxc ps c t l x b i, 1 <= B -> reach B fxc ps c ->
+  nth_error (snd c) t = Some l -> pcl l = P4 x b i ->
+  nth i (bslot (getb (heap (fst c)) b)) None = Some x /\ nth i (bdone (getb (heap (fst c)) b)) false = false /\
+  i < bw (getb (heap (fst c)) b) /\ i < B).
+Print Assumptions C05_writer_publishes_own_value.
+Check (C05_delivery_reads_written_slots : forall B fxc ps c b v, 1 <= B -> reach B fxc ps c ->
+  b < length (heap (fst c)) ->
+  In v (data_of (getb (heap (fst c)) b) (tones (bdone (getb (heap (fst c)) b)))) ->
+  exists j, j < tones (bdone (getb (heap (fst c)) b)) /\ nth j (bslot (getb (heap (fst c)) b)) None = Some v).
+Print Assumptions C05_delivery_reads_written_slots.
+Check (C05_chain_acyclic_nonhead_full : forall B fxc ps c, 1 <= B -> reach B fxc ps c ->
+  exists ids, Chain (heap (fst c)) (tail (fst c)) ids /\
+              (forall b d, In b ids -> bnxt (getb (heap (fst c)) b) = Some d -> B <= bw (getb (heap (fst c)) d))).
+Print Assumptions C05_chain_acyclic_nonhead_full.
+Check (C05_late_claim_refutes : exists c, known_class c = Some 1%N /\ spec_ok c (run_case c) = false).
+Print Assumptions C05_late_claim_refutes.
+Check (C05_handover_refuted_before_fix : late_claim_gen 2 false true handover_case = false /\ spec_gen 2 false true handover_case = false /\
+  spec_gen 2 true true handover_case = true).
+Print Assumptions C05_handover_refuted_before_fix.
+Check (C05_is_empty_refuted_before_fix : late_claim_gen BS true false hidden_case = false /\ spec_gen BS true false hidden_case = false /\
+  spec_gen BS true true hidden_case = true).
+Print Assumptions C05_is_empty_refuted_before_fix.
+Check (C05_example_run_ok : known_class example_case = None /\ spec_ok example_case (run_case example_case) = true).
+Print Assumptions C05_example_run_ok.
